@@ -53,6 +53,7 @@ class C14(runner.Check):
             add(space, 1, 1, "I", "precomputed", y1d=True)
             add(space, 2, 1, "R513", "ridge", cost=4)
             add(space, 1, 2, "R35", "ols", remainder=True)
+        add("feature", 2, 2, "R35", "precomputed", cost=6, rankdef=True)  # singular covariance: the pseudo-inverse route must be taken
         if tier == "thorough":
             for space in ("feature", "sample"):
                 for V in ("I", "R35", "R513", "F35", "R35R513"):
